@@ -521,6 +521,16 @@ class Parser:
         if k == "op" and v == "?":
             self.next()
             return ("param",)
+        if k == "id" and v.lower() == "array" and self.peek(1) == ("op", "["):
+            self.next()
+            self.next()
+            items = []
+            if not self.at("op", "]"):
+                items.append(self.expr())
+                while self.accept("op", ","):
+                    items.append(self.expr())
+            self.expect("op", "]")
+            return ("array", items)
         if k == "id":
             self.next()
             name = v
@@ -577,8 +587,16 @@ def parse(sql):
 # values
 
 
+# An account address is a string; its segments (the jsonb arrays address_array / sources_arrays / ... the store keeps next
+# to it) are uninterpreted functions of that string, so that every copy of one address has the same segments.
+NSEG = z3.Function("nseg", z3.StringSort(), z3.IntSort())
+SEG = z3.Function("seg", z3.StringSort(), z3.IntSort(), z3.StringSort())
+
+
 class V:
-    """kind: int | str | bool | json (dict key -> (present, V str)) | comp (dict field -> V) | obj (list of (key V, val V, guard)) | opaque"""
+    """kind: int | str | bool | json (dict key -> (present, V str)) | comp (dict field -> V) | obj (list of (key V, val V, guard)) | opaque
+    | arr (z = the address string whose segment array this is) | addrset (z = list of (guard, address string): a jsonb array of
+    addresses, or of their exploded forms) | strlist (z = list of V str: an array[...] constructor)"""
     __slots__ = ("kind", "z", "null")
 
     def __init__(self, kind, z, null=None):
@@ -636,6 +654,18 @@ def ite_v(c, a, b):
         return V("json", {k: (z3.If(c, a.z[k][0], b.z[k][0]), z3.If(c, a.z[k][1], b.z[k][1])) for k in a.z}, z3.If(c, a.null, b.null))
     if a.kind == "opaque" or b.kind == "opaque":
         return V("opaque", None, z3.If(c, a.null, b.null))
+    if a.kind == "arr" and b.kind == "arr":
+        return V("arr", z3.If(c, a.z, b.z), z3.If(c, a.null, b.null))
+    if a.kind == "arr" or b.kind == "arr":
+        other = b if a.kind == "arr" else a
+        if other.z is None or other.kind != "arr":
+            keep = a if a.kind == "arr" else b
+            return V("arr", keep.z, z3.If(c, a.null, b.null))
+    if a.kind == "addrset" or b.kind == "addrset":
+        if a.kind == "addrset" and b.kind == "addrset" and len(a.z) == len(b.z):
+            return V("addrset", [(z3.If(c, ga, gb), z3.If(c, xa, xb)) for (ga, xa), (gb, xb) in zip(a.z, b.z)], z3.If(c, a.null, b.null))
+        keep = a if a.kind == "addrset" else b
+        return V("addrset", keep.z, z3.If(c, a.null, b.null))
     if a.z is None:
         a = vnull(b.kind)
     if b.z is None:
@@ -823,6 +853,25 @@ class Evaluator:
                 pres, val = a.z[key]
                 return vstr(val, z3.Or(a.null, z3.Not(pres)))
             raise Unsupported(f"operator {op}")
+        if k == "array":
+            return V("strlist", [self.ev(x, env, group) for x in e[1]])
+        if k == "cmp" and e[1] == "@@":
+            a = self.ev(e[2], env, group)
+            if a.kind != "arr":
+                raise Unsupported(f"@@ on {a.kind}")
+            lit = e[3]
+            while lit[0] in ("cast", "paren"):
+                lit = lit[1]
+            import re as _re
+            m = _re.fullmatch(r'\$\[(\d+)\] == "(.*)"', lit[1]) if lit[0] == "str" else None
+            if not m:
+                raise Unsupported(f"jsonpath {lit}")
+            i, seg = int(m.group(1)), self.strparam(m.group(2).replace('\\"', '"').replace("\\\\", "\\"))
+            return vbool(z3.And(NSEG(a.z) > i, SEG(a.z, z3.IntVal(i)) == seg.z), a.null)
+        if k == "cmp" and e[1] in ("@>", "?|"):
+            a = self.ev(e[2], env, group)
+            if a.kind == "addrset":
+                return self.addrset_op(e[1], a, e[3], env, group)
         if k == "cmp":
             op = e[1]
             a, b = self.ev(e[2], env, group), self.ev(e[3], env, group)
@@ -910,6 +959,49 @@ class Evaluator:
             raise Unsupported("array index")
         raise Unsupported(f"expression {k}")
 
+    def strparam(self, text):
+        p = self.db.params.get(text)
+        return p if isinstance(p, V) else vstr(text)
+
+    def addrset_op(self, op, a, rhs, env, group):
+        """jsonb containment / any-key on a set of addresses (sources, destinations) or of exploded addresses (*_arrays)"""
+        import json as _json
+
+        def some(pred):
+            return z3.Or(*[z3.And(g, pred(x)) for g, x in a.z]) if a.z else z3.BoolVal(False)
+        if op == "?|":
+            b = self.ev(rhs, env, group)
+            if b.kind != "strlist":
+                raise Unsupported("?| needs an array[...] on the right")
+            return vbool(z3.Or(*[some(lambda x, s=s: x == s.z) for s in b.z]) if b.z else z3.BoolVal(False), a.null)
+        lit = rhs
+        while lit[0] in ("cast", "paren"):
+            lit = lit[1]
+        if lit[0] != "str":
+            raise Unsupported("@> on an address set needs a literal")
+        items = _json.loads(lit[1])
+        if not isinstance(items, list):
+            raise Unsupported("@> on an address set needs a json array")
+        conj = []
+        for it in items:
+            if isinstance(it, str):
+                s = self.strparam(it)
+                conj.append(some(lambda x, s=s: x == s.z))
+            elif isinstance(it, dict):
+                def match(x, it=it):
+                    cs = []
+                    for key, val in it.items():
+                        i = int(key)
+                        if val is None:
+                            cs.append(NSEG(x) == i)
+                        else:
+                            cs.append(z3.And(NSEG(x) > i, SEG(x, z3.IntVal(i)) == self.strparam(val).z))
+                    return z3.And(*cs) if cs else z3.BoolVal(True)
+                conj.append(some(match))
+            else:
+                raise Unsupported(f"@> element {it!r}")
+        return vbool(z3.And(*conj) if conj else z3.BoolVal(True), a.null)
+
     def json_key(self, ast, val):
         if ast[0] == "str":
             p = self.db.params.get(ast[1])
@@ -970,6 +1062,11 @@ class Evaluator:
                     for (kk, vv, gg) in v.z:
                         entries.append((kk, vv, z3.And(g, gg)))
                 return V("obj", entries)
+        if fn == "jsonb_array_length":
+            v = self.ev(args[0], env, group)
+            if v.kind != "arr":
+                raise Unsupported(f"jsonb_array_length on {v.kind}")
+            return vint(NSEG(v.z), v.null)
         if fn == "json_build_object":
             entries = []
             for i in range(0, len(args), 2):
